@@ -4,7 +4,7 @@
 //@ assume: decided here: Codec::read_inner (the frame state machine) (a) never underflows or indexes out of range in its length arithmetic, (b) leaves the Headers batching state only consistently: a Headers batch is returned with remaining == 0 only when the frame's announced bytes are exactly used up, a frame whose item count is exhausted while bytes remain (or whose bytes are exhausted while items remain, or whose count is 0 although body bytes follow) is refused with BadMessage and the state reset, while the EMPTY message (count 0, no body) is delivered as an empty list; a returned batch holds at most 32 headers; after a non-final batch the state still expects exactly `remaining` items; (c) an unknown message type is skipped by exactly its announced length and the state reset
 //@ assume: 64-bit target
 //@ assumed_items: 35
-//@ fns: Codec::read_inner, Codec::next_len
+//@ fns: Codec::expect_attachment, State::is_none, Codec::read_inner, Codec::next_len
 use std::sync::Arc;
 use std::mem;
 global size_of usize == 8;
@@ -126,7 +126,15 @@ pub const HEADER_BATCH_SIZE: usize = 32;
 use MsgHeaderWrapper::*;
 use State::*;
 //@ extract p2p/src/codec.rs :: enum State
+//@   rewrite `enum State {` => `pub enum State {`
 //@ end
+pub fn runtime_assert(b: bool) requires b { }
+impl State {
+//@ extract p2p/src/codec.rs :: impl State::is_none
+//@   ensures:
+//@+    r == (*self is None),
+//@ end
+}
 pub struct Codec { pub version: ProtocolVersion, pub stream: TcpStream, pub buffer: BytesMut, pub state: State, pub bytes_read: usize }
 impl Codec {
 //@ extract p2p/src/codec.rs :: impl Codec::set_stream_timeout
@@ -146,6 +154,15 @@ impl Codec {
 //@+    self.state matches Attachment(left, _, _) ==> r <= left && r <= 48_000 && (left > 0 ==> r >= 1),
 //@ end
 
+//@ extract p2p/src/codec.rs :: impl Codec::expect_attachment
+//@   rewrite `assert!(self.state.is_none());` => `runtime_assert(self.state.is_none());`
+//@   rewrite `Instant::now()` => `instant_now()`
+//@   requires:
+//@+    // the assert is an OBLIGATION on the caller: an attachment may be announced only BETWEEN messages
+//@+    old(self).state is None,
+//@   ensures:
+//@+    final(self).state matches Attachment(l, m, _) && l == meta.size && m == meta, final(self).bytes_read == old(self).bytes_read,
+//@ end
 //@ extract p2p/src/codec.rs :: impl Codec::read_inner
 //@   attr: #[verifier::exec_allows_no_decreases_clause]
 //@   strip_logs
@@ -188,6 +205,8 @@ impl Codec {
 //@+    r matches Ok(Message::Headers(hd)) ==> hd.headers@.len() <= 32 && (hd.headers@.len() == 0 ==> hd.remaining == 0) && (hd.remaining == 0 ==> final(self).state is None)
 //@+        && (hd.remaining > 0 ==> hd.headers@.len() == 32 && (final(self).state matches BlockHeaders { items_left, .. } && items_left == hd.remaining)),
 //@+    r matches Ok(Message::Unknown(_)) ==> final(self).state is None,
+//@+    // an ordinary decoded message leaves the codec BETWEEN messages: what expect_attachment (asserting state None) relies on
+//@+    r matches Ok(Message::Other) ==> final(self).state is None,
 //@+    r matches Ok(Message::Attachment(u, _)) ==> (old(self).state matches Attachment(l0, _, _) && u.read + u.left == l0 && (l0 > 0 ==> u.read >= 1) && u.read <= 48_000)
 //@+        && ((u.left == 0) == (final(self).state is None)) && (u.left > 0 ==> (final(self).state matches Attachment(l, _, _) && l == u.left)),
 //@ end
